@@ -31,16 +31,30 @@ use tauri_typegen::generators::TypeCollector;
 use tauri_typegen::models::{EventInfo, TypeStructure};
 use tauri_typegen::GenerateConfig;
 
+/// byte-wise quoting shared with the runner: printable ASCII verbatim, everything else \xHH
+fn esc(s: &str) -> String {
+    let mut out = String::from("\"");
+    for b in s.bytes() {
+        if (32..127).contains(&b) && b != b'"' && b != b'\\' {
+            out.push(b as char);
+        } else {
+            out.push_str(&format!("\\x{:02x}", b));
+        }
+    }
+    out.push('"');
+    out
+}
+
 fn canon(ts: &TypeStructure) -> String {
     match ts {
-        TypeStructure::Primitive(p) => format!("(prim {:?})", p),
+        TypeStructure::Primitive(p) => format!("(prim {})", esc(p)),
         TypeStructure::Array(i) => format!("(arr {})", canon(i)),
         TypeStructure::Map { key, value } => format!("(map {} {})", canon(key), canon(value)),
         TypeStructure::Set(i) => format!("(set {})", canon(i)),
         TypeStructure::Tuple(l) => format!("(tuple{})", l.iter().map(|x| format!(" {}", canon(x))).collect::<String>()),
         TypeStructure::Optional(i) => format!("(opt {})", canon(i)),
         TypeStructure::Result(i) => format!("(res {})", canon(i)),
-        TypeStructure::Custom(n) => format!("(custom {:?})", n),
+        TypeStructure::Custom(n) => format!("(custom {})", esc(n)),
     }
 }
 
